@@ -288,6 +288,11 @@ func constantStringVal(c *ssa.Const) string { return constant.StringVal(c.Value)
 
 // vcText assembles the common part of every query of a VC.
 func (P *Program) vcText(vc *VC, nAsserts int, tail string) string {
+	return P.vcTextOpt(vc, nAsserts, tail, false)
+}
+
+// vcTextOpt: lite drops every quantified assumption (sound: fewer assumptions), for a fast first attempt.
+func (P *Program) vcTextOpt(vc *VC, nAsserts int, tail string, lite bool) string {
 	var b bytes.Buffer
 	b.WriteString(preludeText)
 	b.WriteString(vc.Sorts.declText())
@@ -300,14 +305,22 @@ func (P *Program) vcText(vc *VC, nAsserts int, tail string) string {
 		nAsserts = len(vc.Asserts)
 	}
 	for _, a := range vc.Asserts[:nAsserts] {
+		if lite && (strings.Contains(a, "(forall ") || strings.Contains(a, "(exists ")) {
+			continue
+		}
 		body.WriteString("(assert ")
 		body.WriteString(a)
 		body.WriteString(")\n")
 	}
 	bs := body.String() + tail
 	// optional axiom groups, included only when their symbols occur
-	if strings.Contains(bs, "elemOf") || strings.Contains(bs, "elList") || strings.Contains(bs, "elIdx") {
+	if !lite && (strings.Contains(bs, "elemOf") || strings.Contains(bs, "elList") || strings.Contains(bs, "elIdx")) {
 		b.WriteString(listAxioms)
+	}
+	if lite {
+		b.WriteString(liteSpecDecls(P.specTextFor(bs)))
+		b.WriteString(bs)
+		return b.String()
 	}
 	for _, ax := range vc.Sorts.boxAxioms {
 		// "(assert (forall ((x S)) (! (= (unbox.Y (box.Y x)) x) ..." — needed only when unbox.Y is used
@@ -359,4 +372,62 @@ func (P *Program) specTextFor(body string) string {
 		}
 	}
 	return out.String()
+}
+
+// liteSpecDecls keeps the declarations and definitions of the spec text but drops its quantified axioms.
+func liteSpecDecls(spec string) string {
+	var out strings.Builder
+	for _, form := range topLevelForms(spec) {
+		if strings.HasPrefix(form, "(assert") && (strings.Contains(form, "(forall ") || strings.Contains(form, "(exists ")) {
+			continue
+		}
+		out.WriteString(form)
+		out.WriteByte('\n')
+	}
+	return out.String()
+}
+
+func topLevelForms(s string) []string {
+	var out []string
+	d := 0
+	start := -1
+	inStr := false
+	inComment := false
+	for i := 0; i < len(s); i++ {
+		c := s[i]
+		if inComment {
+			if c == '\n' {
+				inComment = false
+			}
+			continue
+		}
+		if inStr {
+			if c == '"' {
+				inStr = false
+			}
+			continue
+		}
+		switch c {
+		case ';':
+			if d == 0 {
+				inComment = true
+			} else {
+				inComment = true
+			}
+		case '"':
+			inStr = true
+		case '(':
+			if d == 0 {
+				start = i
+			}
+			d++
+		case ')':
+			d--
+			if d == 0 && start >= 0 {
+				out = append(out, s[start:i+1])
+				start = -1
+			}
+		}
+	}
+	return out
 }
